@@ -616,7 +616,7 @@ type pathEnd struct {
 //   - arrivals at a block with the same event history, boolean phi choices and
 //     loop state are merged, so branches without events do not multiply paths.
 func (w *World) enumPaths(fn *ssa.Function, eval func(cond ssa.Value) (val bool, known bool), event func(in ssa.Instruction) string, max int) ([]pathEnd, bool) {
-	e := &enumerator{w: w, eval: eval, event: event, max: max, complete: true, evCache: map[ssa.Instruction]string{}, hasEv: map[*ssa.Function]int{}, pathSensitiveEvents: w.psEvents, expandPanics: w.expandPanics, expandAll: w.expandAll, maxDepth: w.enumDepth}
+	e := &enumerator{w: w, eval: eval, event: event, max: max, complete: true, evCache: map[ssa.Instruction]string{}, hasEv: map[*ssa.Function]int{}, pathSensitiveEvents: w.psEvents, expandPanics: w.expandPanics, expandAll: w.expandAll, maxDepth: w.enumDepth, callResults: w.callResultsOn}
 	if len(fn.Blocks) == 0 {
 		return nil, true
 	}
@@ -791,7 +791,20 @@ func (e *enumerator) walkFn(fn *ssa.Function, ev []string, depth int, k func(ev 
 			}
 		}
 		sort.Strings(ph)
-		return fmt.Sprintf("%d|%d.%d|%s|%s|%s", act, b.Index, from, strings.Join(ev, "\x00"), strings.Join(lp, ","), strings.Join(ph, ","))
+		// what the path has learnt at its branches is part of its state
+		var fs []string
+		for k, v := range st.nilFact {
+			fs = append(fs, fmt.Sprintf("n%s#%d=%d", k.v.Name(), k.n, v))
+		}
+		for k, v := range st.keyFact {
+			if v.hit {
+				fs = append(fs, "k"+k+"="+v.key)
+			} else {
+				fs = append(fs, "k"+k+"=none")
+			}
+		}
+		sort.Strings(fs)
+		return fmt.Sprintf("%d|%d.%d|%s|%s|%s|%s", act, b.Index, from, strings.Join(ev, "\x00"), strings.Join(lp, ","), strings.Join(ph, ","), strings.Join(fs, ","))
 	}
 	var walk func(b *ssa.BasicBlock, from int, ev []string)
 	enter := func(pred, b *ssa.BasicBlock, ev []string) {
@@ -1229,6 +1242,9 @@ func (e *enumerator) walkFn(fn *ssa.Function, ev []string, depth int, k func(ev 
 						}()
 					}
 					enter(b, succ, mark(ev, taken))
+				}
+				if os.Getenv("RIGOCHECK_DEBUG") == "eb" && depth == 0 {
+					fmt.Fprintln(os.Stderr, "EB", e.w.InstrPos(t), e.w.Canon(t.Cond), "known", known, "v", v, "tested", tested != nil)
 				}
 				if !known || v {
 					branch(true, b.Succs[0])
@@ -1874,6 +1890,25 @@ func (w *World) evalBool(v ssa.Value, st *pathState, eval func(ssa.Value) (bool,
 						return x.Op == token.NEQ, true
 					case -1:
 						return x.Op == token.EQL, true
+					}
+				}
+				// the variable merges the results of several arms: on this path it is one of them
+				if st != nil {
+					rv := stripConv(pr[0])
+					for k := 0; k < 6; k++ {
+						if ph, isPhi := rv.(*ssa.Phi); isPhi {
+							if nv, ok := st.phi[ph]; ok && nv != rv {
+								rv = stripConv(nv)
+								continue
+							}
+						}
+						break
+					}
+					if rv != stripConv(pr[0]) {
+						pr[0] = rv
+						if c, isC := rv.(*ssa.Const); isC && c.IsNil() {
+							return x.Op == token.EQL, true
+						}
 					}
 				}
 				// the error result of a callee that was expanded on this path
